@@ -117,6 +117,13 @@ theorem failed_op_frame (v : Variant) (w : World) (op : Op) (h : (step v w op).2
     | some i => rw [hj] at h; exact upd_err _ _ h
   | dumpKept j => simp only [step] at h ⊢; (repeat' split) <;> rfl
   | reload => simp only [step] at h ⊢; split <;> first | rfl | simp_all
+  | ctorAtomsKw nA nC cs qs ws => simp only [step] at h ⊢; split <;> first | rfl | simp_all
+  | readAt i => simp only [step] at h ⊢; (repeat' split) <;> rfl
+  | writeAt i c =>
+    simp only [step] at h ⊢
+    cases hj : normIdx w.ens.nC i with
+    | none => rfl
+    | some j => rw [hj] at h; exact upd_err _ _ h
 
 /-! ### conformers are live views of their row -/
 
@@ -259,7 +266,7 @@ theorem nested_iter_count (w : World) (l : List (Nat × Nat)) (h : (step .repair
   rw [length_flatMap_const _ _ w.ens.nC (by intro x; simp), List.length_range]
 
 def Op.isCtor : Op → Bool
-  | .ctorAtoms _ _ | .ctorMol _ _ | .ctorMols _ | .ctorCopy | .ctorCopyKw | .swap _ | .reload => true
+  | .ctorAtoms _ _ | .ctorMol _ _ | .ctorMols _ | .ctorCopy | .ctorCopyKw | .swap _ | .reload | .ctorAtomsKw _ _ _ _ _ => true
   | _ => false
 
 def isNextOf (k : Nat) : Op → Bool
@@ -301,6 +308,11 @@ theorem step_iter_frame (w : World) (op : Op) (k : Nat) (it : Iter) (hk : w.iter
       rw [iterNext_frame w k' k hne]; exact hk
   case readKept j => (repeat' split) <;> exact hk
   case dumpKept j => (repeat' split) <;> exact hk
+  case readAt i => (repeat' split) <;> exact hk
+  case writeAt i c =>
+    split
+    · rw [(upd_ens w _).2.1]; exact hk
+    · exact hk
   case writeKept j c =>
     split
     · rw [(upd_ens w _).2.1]; exact hk
@@ -434,6 +446,112 @@ theorem reload_like_constructed (w : World) (hr : Rect w.ens) (ops : List Op) :
     simp only [step, reloaded, (rect_iff _).mpr hr, if_true]
   exact ⟨h, by rw [h]⟩
 
+/-! ### every integer index; the constructor with array arguments -/
+
+/-- `ens[i]` for EVERY integer `i`: for `-n ≤ i < n` it is the view of row `i mod n` (so `ens[-n]` is row 0 and `ens[-1]` the last
+row), for every other integer it is an error and nothing changes -/
+theorem index_every_integer (v : Variant) (w : World) (hr : Rect w.ens) (i : Int) :
+    (-(w.ens.nC : Int) ≤ i ∧ i < w.ens.nC →
+        ∃ x, (step v w (.readAt i)).2 = .view x ∧ readConf w.ens (i % (w.ens.nC : Int)).toNat = some x) ∧
+    (¬ (-(w.ens.nC : Int) ≤ i ∧ i < w.ens.nC) → (step v w (.readAt i)) = (w, .err)) := by
+  constructor
+  · intro ⟨h1, h2⟩
+    have hn : 0 < w.ens.nC := by omega
+    have hj : normIdx w.ens.nC i = some (i % (w.ens.nC : Int)).toNat := by
+      simp only [normIdx]
+      by_cases h0 : 0 ≤ i
+      · rw [if_pos ⟨h0, h2⟩, Int.emod_eq_of_lt h0 h2]
+      · rw [if_neg (by omega), if_pos ⟨by omega, h1⟩]
+        congr 2
+        have : (i + w.ens.nC) % (w.ens.nC : Int) = i + w.ens.nC := Int.emod_eq_of_lt (by omega) (by omega)
+        rw [← this, Int.add_emod_right]
+    have hlt : (i % (w.ens.nC : Int)).toNat < w.ens.nC := by
+      have := Int.emod_lt_of_pos i (show (0 : Int) < w.ens.nC by omega)
+      have := Int.emod_nonneg i (show (w.ens.nC : Int) ≠ 0 by omega)
+      omega
+    obtain ⟨x, hx, _, _⟩ := view_exists w.ens hr _ hlt
+    exact ⟨x, by simp only [step, hj, hx], hx⟩
+  · intro h
+    have hj : normIdx w.ens.nC i = none := by
+      simp only [normIdx]
+      rw [if_neg (by omega), if_neg (by omega)]
+    simp only [step, hj]
+
+example : (run .repaired initWorld
+    [.ctorMols [⟨[[some 1, some 1, some 1]], some [some 0]⟩, ⟨[[some 2, some 2, some 2]], some [some 0]⟩],
+     .readAt (-2), .readAt (-1), .readAt 1, .readAt 2, .readAt (-3), .writeAt (-2) [[some 9, some 9, some 9]], .readAt 0]).2 =
+    [.ok, .view ⟨[[some 1, some 1, some 1]], [some 0]⟩, .view ⟨[[some 2, some 2, some 2]], [some 0]⟩,
+     .view ⟨[[some 2, some 2, some 2]], [some 0]⟩, .err, .err, .ok, .view ⟨[[some 9, some 9, some 9]], [some 0]⟩] := by decide
+
+def Dims (n a : Nat) (e : Ens) : Prop := e.nC = n ∧ e.nA = a
+
+theorem setCoordsB_dims (e e' : Ens) (cs : List Conf) (h : setCoordsB e cs = some e') : Dims e.nC e.nA e' := by
+  simp only [setCoordsB] at h
+  split at h
+  · refine rect_bind _ _ e' (Dims e.nC e.nA) (fun a e'' h' => ?_) h
+    simp only [setCoords] at h'
+    split at h'
+    · rename_i hc; injection h' with h'; subst h'; exact ⟨hc.1, rfl⟩
+    · cases h'
+  · cases h
+
+theorem setChargesB_dims (e e' : Ens) (qs : List (List Num)) (h : setChargesB e qs = some e') : Dims e.nC e.nA e' := by
+  simp only [setChargesB] at h
+  split at h
+  · refine rect_bind _ _ e' (Dims e.nC e.nA) (fun a e'' h' => ?_) h
+    simp only [setCharges] at h'
+    split at h'
+    · injection h' with h'; subst h'; exact ⟨rfl, rfl⟩
+    · cases h'
+  · cases h
+
+theorem setWeightsB_dims (e e' : Ens) (ws : List Num) (h : setWeightsB e ws = some e') : Dims e.nC e.nA e' := by
+  refine rect_bind _ _ e' (Dims e.nC e.nA) (fun a e'' h' => ?_) h
+  simp only [setWeights] at h'
+  split at h'
+  · injection h' with h'; subst h'; exact ⟨rfl, rfl⟩
+  · cases h'
+
+theorem optSet_dims {α : Type} (f : Ens → α → Option Ens) (hf : ∀ e a e', f e a = some e' → Dims e.nC e.nA e')
+    (e : Ens) (a : Option α) (e' : Ens) (h : optSet f e a = some e') : Dims e.nC e.nA e' := by
+  cases a with
+  | none => simp only [optSet] at h; injection h with h; subst h; exact ⟨rfl, rfl⟩
+  | some x => exact hf e x e' h
+
+theorem ctorKw_dims (nA nC : Nat) (cs : Option (List Conf)) (qs : Option (List (List Num))) (ws : Option (List Num)) (e : Ens)
+    (h : ctorKw nA nC cs qs ws = some e) : e.nC = nC ∧ e.nA = nA := by
+  simp only [ctorKw] at h
+  have h0 : (alloc nA nC).nC = nC ∧ (alloc nA nC).nA = nA := ⟨by simp [alloc, Ens.nC], rfl⟩
+  cases h1 : optSet setCoordsB (alloc nA nC) cs with
+  | none => rw [h1] at h; cases h
+  | some e1 =>
+    rw [h1] at h
+    simp only [Option.bind_some] at h
+    have d1 := optSet_dims setCoordsB (fun e a e' hh => setCoordsB_dims e e' a hh) _ cs e1 h1
+    cases h2 : optSet setChargesB e1 qs with
+    | none => rw [h2] at h; cases h
+    | some e2 =>
+      rw [h2] at h
+      simp only [Option.bind_some] at h
+      have d2 := optSet_dims setChargesB (fun e a e' hh => setChargesB_dims e e' a hh) _ qs e2 h2
+      have d3 := optSet_dims setWeightsB (fun e a e' hh => setWeightsB_dims e e' a hh) _ ws e h
+      unfold Dims at d1 d2 d3
+      constructor <;> omega
+
+/-- the constructor with `coords=`, `atomic_charges=`, `weights=` arguments of any shape either raises (and binds nothing) or
+yields a rectangular ensemble of exactly `n_conformers × n_atoms`: one geometry given for several conformers is repeated, it never
+changes the number of conformers -/
+theorem ctor_with_arrays (w : World) (nA nC : Nat) (cs : Option (List Conf)) (qs : Option (List (List Num))) (ws : Option (List Num)) :
+    ((step .repaired w (.ctorAtomsKw nA nC cs qs ws)).2 = .err ∧ (step .repaired w (.ctorAtomsKw nA nC cs qs ws)).1 = w) ∨
+    ((step .repaired w (.ctorAtomsKw nA nC cs qs ws)).2 = .ok ∧ Rect (step .repaired w (.ctorAtomsKw nA nC cs qs ws)).1.ens ∧
+      (step .repaired w (.ctorAtomsKw nA nC cs qs ws)).1.ens.nC = nC ∧ (step .repaired w (.ctorAtomsKw nA nC cs qs ws)).1.ens.nA = nA) := by
+  simp only [step]
+  cases h : ctorKw nA nC cs qs ws with
+  | none => exact Or.inl ⟨rfl, rfl⟩
+  | some e =>
+    have hd := ctorKw_dims nA nC cs qs ws e h
+    exact Or.inr ⟨rfl, rect_ctorKw nA nC cs qs ws e h, hd.1, hd.2⟩
+
 /-! ### several live ensembles in one history: nothing else changes -/
 
 /-- "reads and writes go through to the ensemble, NOTHING ELSE CHANGES" across objects: an operation that is not
@@ -503,6 +621,7 @@ theorem kept_grows (w : World) (op : Op) (h : Op.isCtor op = false) : w.kept <+:
     rw [((iterNew_same .repaired w).trans (drain_same .repaired _ _ _)).2.2]; exact List.prefix_append _ _
   case readKept j => (repeat' split) <;> exact List.prefix_refl _
   case dumpKept j => (repeat' split) <;> exact List.prefix_refl _
+  case readAt i => (repeat' split) <;> exact List.prefix_refl _
 
 /-- over any history without a new construction: the `j`-th kept conformer is the same row index at the end -/
 theorem kept_fixed (ops : List Op) (w : World) (h : ∀ op ∈ ops, Op.isCtor op = false) (j i : Nat)
